@@ -220,6 +220,12 @@ def run(ctx):
                                 if isinstance(q, (ast.Tuple, ast.Slice)):
                                     c, q = q, pmf.get(id(q))
                                     continue
+                                if isinstance(q, ast.Call) and isinstance(q.func, ast.Attribute) and q.func.attr in ("ix_", "take", "asarray", "array"):
+                                    if q.func.attr == "take":
+                                        isidx = True  # array.take(permutation, axis=...) / np.take(array, permutation)
+                                        break
+                                    c, q = q, pmf.get(id(q))  # an index built from the permutation (np.ix_(p, p))
+                                    continue
                                 break
                             if isidx:
                                 puse += 1
@@ -281,3 +287,6 @@ def run(ctx):
     # the factors that multiply converted rows must be in the converted order too (shared with C01-R4): otherwise the
     # written block is not a signed permutation of the stored one
     ctx.borrow("c01", {"R4": "R8", "R9": "R9"})
+    # the overlap matrix is computed in the internal order and converted to the basis' own conventions at the end of
+    # compute_overlap: the evaluated clause of C06 (returned[i, j] = s[i] s[j] internal[p[i], p[j]])
+    ctx.borrow("c06", {"R3": "R10"})
